@@ -4,6 +4,7 @@ mod chain;
 mod engine;
 mod evidence;
 mod hooks;
+mod mig;
 mod oracles;
 mod probes;
 mod refmodel;
@@ -52,9 +53,126 @@ fn check(prop: &str, tier: Tier) -> i32 {
         }
     } else if prop == "C13" {
         check_c13(tier, tier_s)
+    } else if prop == "C14" || prop == "C15" {
+        check_mig(prop, tier, tier_s)
     } else {
         eprintln!("MACHINERY ERROR: no check registered for {prop}");
         2
+    }
+}
+
+fn check_mig(prop: &str, tier: Tier, tier_s: &str) -> i32 {
+    use serde_json::json;
+    let t0 = std::time::Instant::now();
+    let findings = match run::load_findings() {
+        Ok(f) => f,
+        Err(e) => {
+            eprintln!("MACHINERY ERROR: {e}");
+            return 2;
+        }
+    };
+    let (mut out, stats) = match mig::run_books(tier, prop) {
+        Ok(x) => x,
+        Err(e) => {
+            eprintln!("MACHINERY ERROR: {e}");
+            return 2;
+        }
+    };
+    for (n, s) in &stats {
+        eprintln!("  [{prop}] closure {n}: {} states, depth {}, exhaustive {}", s.states, s.depth, s.exhaustive);
+    }
+    eprintln!("  [{prop}] books {} old-format twins {} migrate calls {} (accepted {} refused {} aborted {})", out.books, out.twins, out.migrate_calls, out.accepted, out.refused, out.aborted);
+    let mut logs_calls = 0;
+    if prop == "C15" {
+        let o2 = mig::run_all_logs(tier);
+        eprintln!("  [{prop}] all event logs: {} logs, {} migrate calls", o2.twins, o2.migrate_calls);
+        logs_calls = o2.migrate_calls;
+        out.merge_pub(o2);
+    }
+    let mut unlisted: Vec<(String, String)> = vec![];
+    let mut n = 0;
+    for (sig, (vprop, count, detail, doc)) in &out.viols {
+        if *vprop != prop {
+            println!("note: not deciding here: {vprop} {sig} x{count}");
+            continue;
+        }
+        if let Some(f) = run::is_known(&findings, prop, sig) {
+            println!("KNOWN-FINDING: property={prop} {sig}: {}", f.description);
+            continue;
+        }
+        n += 1;
+        let file = format!("{}/replays/{prop}-{n}.json", run::VERIF);
+        let _ = std::fs::create_dir_all(format!("{}/replays", run::VERIF));
+        let mut d = doc.clone();
+        if d.is_null() {
+            d = json!({});
+        }
+        d["property"] = json!(prop);
+        d["signature"] = json!(sig);
+        d["occurrences"] = json!(count);
+        d["detail"] = json!(detail);
+        if d.get("kind").is_none() {
+            d["kind"] = json!("migrate");
+        }
+        if let Err(e) = std::fs::write(&file, serde_json::to_string_pretty(&d).unwrap()) {
+            eprintln!("MACHINERY ERROR: {e}");
+            return 2;
+        }
+        if d["kind"] == json!("migrate") {
+            let r1 = mig::replay(&d);
+            let r2 = mig::replay(&d);
+            match (r1, r2) {
+                (Ok(a), Ok(b)) if a.0 && b.0 => {}
+                (a, _) => {
+                    eprintln!("MACHINERY ERROR: {prop} violation {sig} does not replay deterministically from {file}: {:?}", a.map(|x| x.0));
+                    return 2;
+                }
+            }
+        }
+        unlisted.push((sig.clone(), file));
+    }
+    let closure_states: usize = stats.iter().map(|s| s.1.states).sum();
+    let req: Vec<&str> = if prop == "C14" {
+        vec!["C14/version-class/Unreadable", "C14/version-class/Below", "C14/version-class/InWindow", "C14/version-class/AtOrAfterChange", "C14/version-class/Undecided", "C14/second-application-compared", "C15/old-format-bid-converted", "C15/new-format-bid-through-migration"]
+    } else {
+        vec!["C15/old-format-bid-converted", "C15/old-format-bid-outside-window", "C15/new-format-bid-through-migration", "C15/twin-vs-native-stores-compared", "C15/migrated-twin-vs-original-state", "C15/continuations-compared", "C15/log-length-4"]
+    };
+    let vac: Vec<&str> = req.iter().copied().filter(|k| out.cov.get(*k).copied().unwrap_or(0) == 0).collect();
+    for k in &vac {
+        println!("WARNING vacuous: counter {k:?} is zero in this run");
+    }
+    let cov = json!({
+        "states": closure_states as u64 + out.twins,
+        "transitions": out.migrate_calls,
+        "traces_validated_against_impl": out.migrate_calls,
+        "exhaustive": stats.iter().all(|s| s.1.exhaustive),
+        "samples": out.samples,
+        "closures": stats.iter().map(|(n, s)| json!({"name": n, "states": s.states, "transitions": s.l_transitions, "depth_to_fixpoint": s.depth, "exhaustive": s.exhaustive})).collect::<Vec<_>>(),
+        "books": out.books, "old_format_twins": out.twins, "migrate_calls": out.migrate_calls, "all_logs_migrate_calls": logs_calls,
+        "accepted": out.accepted, "refused": out.refused, "aborted": out.aborted,
+        "stored_versions": mig::VERSIONS,
+        "counters": out.cov, "vacuous_counters": vac,
+        "explanation": "states = every state of the closure(s) (books produced by real histories) plus their old-format twins (each subset of bids rewritten with the event log observed along the path); transitions = migrate entry-point executions (each compared with the reference; accepted ones followed by a second application)",
+    });
+    let assumptions = vec![
+        "stored versions and migrate messages from the listed alphabets; pre-release / build-metadata versions get the conditional verdict only".to_string(),
+        "event logs: those observed along the BFS path of each state, plus (C15) every log up to the length bound over {fill, refund, reject} x {no fee, fee 1, fee 2} x amounts {1, 2}".to_string(),
+        "native x86-64 build of the working-tree sources".to_string(),
+    ];
+    if let Err(e) = evidence::write_evidence(prop, tier_s, cov, assumptions, t0.elapsed().as_secs_f64(), unlisted.len(), BTreeMap::new()) {
+        eprintln!("MACHINERY ERROR: {e}");
+        return 2;
+    }
+    println!("{prop} {tier_s}: {} books, {} twins, {} migrate calls, {:.1}s", out.books, out.twins, out.migrate_calls, t0.elapsed().as_secs_f64());
+    if unlisted.is_empty() {
+        println!("OK property={prop} held on everything explored");
+        0
+    } else {
+        for (sig, file) in &unlisted {
+            println!("  {sig}");
+            println!("VIOLATION property={prop} replay={file}");
+        }
+        1
     }
 }
 
@@ -157,6 +275,26 @@ fn replay(path: &str) -> i32 {
     let prop = doc["property"].as_str().unwrap_or("?").to_string();
     println!("replaying {path}: property {prop}, signature {}", doc["signature"].as_str().unwrap_or(""));
     println!("detail recorded: {}", doc["detail"].as_str().unwrap_or(""));
+    if matches!(doc.get("kind").and_then(|k| k.as_str()), Some("migrate") | Some("migrate-log")) {
+        return match mig::replay(&doc) {
+            Ok((rep, log)) => {
+                for l in &log {
+                    println!("{l}");
+                }
+                if rep {
+                    println!("VIOLATION property={prop} replay={path}");
+                    1
+                } else {
+                    println!("not reproduced on the current tree");
+                    0
+                }
+            }
+            Err(e) => {
+                eprintln!("MACHINERY ERROR: {e}");
+                2
+            }
+        };
+    }
     if doc.get("kind").and_then(|k| k.as_str()) == Some("instantiate") {
         return match c13::replay(&doc) {
             Ok((rep, log)) => {
